@@ -651,6 +651,8 @@ func (ex *Exec) heapWF(key string, arr *T, global bool) {
 		}
 	} else if cell.S == SSlice {
 		f = App("wfS", SBool, cell)
+	} else if key == "$M.len" {
+		f = Le(I(0), cell)
 	}
 	if f == True {
 		return
